@@ -195,11 +195,13 @@ theorem mapTo_eq_of_not_stays {m : AMap α} {a b : Nat} (ha : ¬ Stays m a) (hb 
 
 /-! ### the loop -/
 
+/-- If no alias points at an alias after `N` steps, a loop that has at least `N + 1 - n` passes left (distances
+    double with every pass) `break`s, with every alias sent `N` steps along. -/
 theorem shortenLoop_exits {m : AMap α} {N : Nat} (hN : ¬ Stays m N) :
-    ∀ (fuel r n : Nat), 1 ≤ n → N ≤ fuel + n →
-      ∃ r', shortenLoop fuel r (mapTo m n) = .exited r' (mapTo m N) ∧ (r' = r ∨ r' + n ≤ r + N) := by
-  intro fuel
-  induction fuel with
+    ∀ (f r n : Nat), 1 ≤ n → N ≤ f + n →
+      ∃ r', shortenLoop (f + 1) r (mapTo m n) = .exited r' (mapTo m N) ∧ (r' = r ∨ r' + n ≤ r + N) := by
+  intro f
+  induction f with
   | zero =>
     intro r n hn hf
     have hns : ¬ Stays m n := fun h => hN (stays_of_le (by omega) h)
@@ -217,7 +219,7 @@ theorem shortenLoop_exits {m : AMap α} {N : Nat} (hN : ¬ Stays m N) :
         exact hN (stays_of_le (by omega) hs)
       obtain ⟨r', h1, h2⟩ := ih (r + 1) (n + n) (by omega) (by omega)
       refine ⟨r', ?_, Or.inr ?_⟩
-      · simp [shortenLoop, hc, shortenStep_mapTo, h1]
+      · rw [shortenLoop]; simp only [hc, if_true, shortenStep_mapTo]; exact h1
       · omega
     · have hc : chained (mapTo m n) = false := by
         rw [← Bool.not_eq_true, chained_mapTo]; exact hs
@@ -225,11 +227,12 @@ theorem shortenLoop_exits {m : AMap α} {N : Nat} (hN : ¬ Stays m N) :
       rw [← mapTo_eq_of_not_stays hs hN]
       simp [shortenLoop, hc]
 
-theorem shortenLoop_diverges {m : AMap α} (h : ∀ n, Stays m n) :
-    ∀ (fuel r n : Nat), shortenLoop fuel r (mapTo m n) = .fuelOut := by
+/-- If some alias points at an alias after every number of steps, no pass `break`s: the range runs out. -/
+theorem shortenLoop_exhausts {m : AMap α} (h : ∀ n, Stays m n) :
+    ∀ (fuel r n : Nat), shortenLoop fuel r (mapTo m n) = .exhausted := by
   intro fuel
   induction fuel with
-  | zero => intro r n; simp [shortenLoop, (chained_mapTo m n).mpr (h n)]
+  | zero => intro r n; simp [shortenLoop]
   | succ f ih => intro r n; simp [shortenLoop, (chained_mapTo m n).mpr (h n), shortenStep_mapTo, ih]
 
 /-! ### pigeonhole: a chain that ever leaves the key set does so within `|m|` steps -/
@@ -296,16 +299,10 @@ variable {α : Type} [DecidableEq α]
     alias any more: distances double in every round. -/
 theorem shortenLoop_rounds {m : AMap α} : ∀ (fuel r n : Nat) {r' : Nat} {m' : AMap α},
     shortenLoop fuel r (mapTo m n) = .exited r' m' →
-    ∃ j, r' = r + j ∧ j ≤ fuel ∧ m' = mapTo m (n * 2 ^ j) ∧ ¬ Stays m (n * 2 ^ j) ∧ ∀ i, i < j → Stays m (n * 2 ^ i) := by
+    ∃ j, r' = r + j ∧ j < fuel ∧ m' = mapTo m (n * 2 ^ j) ∧ ¬ Stays m (n * 2 ^ j) ∧ ∀ i, i < j → Stays m (n * 2 ^ i) := by
   intro fuel
   induction fuel with
-  | zero =>
-    intro r n r' m' h
-    by_cases hc : chained (mapTo m n) = true
-    · simp [shortenLoop, hc] at h
-    · simp [shortenLoop, hc] at h
-      refine ⟨0, by omega, by omega, by simp [h.2], ?_, by omega⟩
-      simpa [← chained_mapTo] using hc
+  | zero => intro r n r' m' h; simp [shortenLoop] at h
   | succ f ih =>
     intro r n r' m' h
     by_cases hc : chained (mapTo m n) = true
@@ -326,12 +323,7 @@ theorem shortenLoop_exit_not_chained : ∀ (fuel r : Nat) (m : AMap α) {r' : Na
     shortenLoop fuel r m = .exited r' m' → chained m' = false ∧ keys m' = keys m := by
   intro fuel
   induction fuel with
-  | zero =>
-    intro r m r' m' h
-    by_cases hc : chained m = true
-    · simp [shortenLoop, hc] at h
-    · simp [shortenLoop, hc] at h
-      rw [← h.2]; exact ⟨by simpa using hc, rfl⟩
+  | zero => intro r m r' m' h; simp [shortenLoop] at h
   | succ f ih =>
     intro r m r' m' h
     by_cases hc : chained m = true
@@ -346,5 +338,77 @@ theorem follow_self {m : AMap α} (hwf : WF m) {k : α} (h : (k, k) ∈ m) (n : 
   induction n with
   | zero => rfl
   | succ n ih => rw [follow, resolve_of_mem hwf h, ih]
+
+/-! ### the `k != v` filter -/
+
+theorem mem_dropSelf {m : AMap α} {p : α × α} : p ∈ dropSelf m ↔ p ∈ m ∧ p.1 ≠ p.2 := by
+  simp [dropSelf, List.mem_filter]
+
+theorem keys_dropSelf_sub {m : AMap α} {k : α} (h : k ∈ keys (dropSelf m)) : k ∈ keys m := by
+  obtain ⟨p, hp, rfl⟩ := List.mem_map.mp h
+  exact mem_keys_of_mem (v := p.2) (mem_dropSelf.mp hp).1
+
+theorem wf_dropSelf {m : AMap α} (hwf : WF m) : WF (dropSelf m) := by
+  unfold WF keys dropSelf
+  exact (List.filter_sublist.map Prod.fst).nodup hwf
+
+/-- A map without self-maps is left alone. -/
+theorem dropSelf_eq_self {m : AMap α} (h : ∀ p, p ∈ m → p.1 ≠ p.2) : dropSelf m = m := by
+  apply List.filter_eq_self.mpr
+  intro p hp
+  simpa using h p hp
+
+theorem dropSelf_idem (m : AMap α) : dropSelf (dropSelf m) = dropSelf m :=
+  dropSelf_eq_self fun _ hp => (mem_dropSelf.mp hp).2
+
+/-- Dropping self-maps does not change what a name resolves to (a self-map resolves a name to itself anyway);
+    only the set of keys shrinks. -/
+theorem resolve_dropSelf {m : AMap α} (hwf : WF m) (x : α) : resolve (dropSelf m) x = resolve m x := by
+  rcases resolve_cases m x with ⟨h1, h2⟩ | h1
+  · rw [h2]; exact resolve_of_not_key fun hk => h1 (keys_dropSelf_sub hk)
+  · by_cases e : x = resolve m x
+    · rw [← e]
+      apply resolve_of_not_key
+      intro hk
+      obtain ⟨p, hp, hpx⟩ := List.mem_map.mp hk
+      have hp' := mem_dropSelf.mp hp
+      have h2 : get m p.1 = some p.2 := get_of_mem hwf (k := p.1) (v := p.2) hp'.1
+      have h3 : get m x = some x := by
+        have := get_of_mem hwf h1
+        rw [← e] at this; exact this
+      rw [hpx, h3] at h2
+      exact hp'.2 (by rw [hpx]; exact Option.some.inj h2)
+    · exact resolve_of_mem (wf_dropSelf hwf) (mem_dropSelf.mpr ⟨h1, e⟩)
+
+theorem follow_dropSelf {m : AMap α} (hwf : WF m) (n : Nat) (x : α) : follow (dropSelf m) n x = follow m n x := by
+  induction n generalizing x with
+  | zero => rfl
+  | succ n ih => rw [follow, follow, resolve_dropSelf hwf, ih]
+
+/-! ### cycles -/
+
+/-- A chain that never leaves the aliases runs into a cycle: some alias comes back to itself. -/
+theorem cycle_of_never_leaves {m : AMap α} {k : α} (h : ∀ n, follow m n k ∈ keys m) :
+    ∃ c d, c ∈ keys m ∧ 1 ≤ d ∧ follow m d c = c := by
+  have hrep : ∃ i j, i < j ∧ j ≤ m.length ∧ follow m i k = follow m j k := by
+    apply Classical.byContradiction
+    intro hno
+    have := inj_bound m.length (keys m) (fun i => follow m i k) (fun i _ => h i)
+      (fun i j hij hj e => hno ⟨i, j, hij, hj, e⟩)
+    simp [keys] at this
+    omega
+  obtain ⟨i, j, hij, _, e⟩ := hrep
+  refine ⟨follow m i k, j - i, h i, by omega, ?_⟩
+  rw [← follow_add, show i + (j - i) = j by omega, e]
+
+/-- An alias on a cycle never leaves the aliases. -/
+theorem never_leaves_of_cycle {m : AMap α} {c : α} {d : Nat} (hc : c ∈ keys m) (hd : 1 ≤ d)
+    (h : follow m d c = c) (n : Nat) : follow m n c ∈ keys m := by
+  have hper := follow_periodic (m := m) (x := c) (i := 0) (d := d) (by simpa [follow] using h) n
+  have hge : n ≤ 0 + n * d := by
+    have : n * 1 ≤ n * d := Nat.mul_le_mul_left _ hd
+    omega
+  apply follow_mem_of_le hge
+  rw [hper]; exact hc
 
 end Fsic.Alias
